@@ -301,13 +301,15 @@ class Real:
         o.allow_none = value
 
     # -- raw operations (arguments passed through as they are; used for invalid requests) ---------
-    def op_new_space_raw(self, parent, name, bases=None, formula=None):
+    def op_new_space_raw(self, parent, name, bases=None, formula=None, refs=None):
         p = self.space(parent)
         kw = {}
         if bases:
             kw["bases"] = [self.space(b) for b in bases]
         if formula is not None:
             kw["formula"] = formula
+        if refs is not None:
+            kw["refs"] = dict(refs)
         p.new_space(name, **kw)
 
     def op_new_cells_raw(self, path, name, formula):
